@@ -30,8 +30,10 @@ INFO = {
                                            'x all 5 unknown-value patterns x default/explicit '
                                            'thresholds; 3 for 2 channels (one unknown-value '
                                            'pattern each); every brightness order'},
-               'thorough': {'configurations': 'all 4 event orders x 7 label namings x 2 statistics '
-                                              'x 5 unknown-value patterns, 1 and 2 channels'}},
+               'thorough': {'configurations': '1 channel: 7 label namings x 2 statistics (event '
+                                              'order tied to the naming) x 5 unknown-value '
+                                              'patterns x default/explicit thresholds; 2 channels: '
+                                              '7 configurations; every brightness order'}},
     'outside': ['populations within 0.05 of a selection threshold', 'clustering quality (GMM)', 'the 10% conversion accuracy', 'reproducibility for a '
                 'fixed random seed', 'log/logicle selection scales (linear executed)'],
     'stubs': ['clustering_fxn: any relabelling of the ground-truth partition',
@@ -216,12 +218,13 @@ def conditions(tier):
         cfgs += [(True, False, pi, li, ui, None, mb)
                  for (pi, li, ui) in ((1, 4, 0), (3, 2, 2), (2, 5, 4)) for mb in (0, 1, 2)]
     else:
-        cfgs = [(False, um, pi, li, None, ud, uis) for um in (False, True)
-                for pi in range(len(PERMS)) for li in range(len(LABELS))
+        # sized for about half an hour on 16 cores: every label naming with both statistics
+        # (event order tied to the naming), every unknown-value pattern, both threshold forms
+        cfgs = [(False, um, li % len(PERMS), li, None, ud, uis) for um in (False, True)
+                for li in range(len(LABELS))
                 for ud in (False, True) for uis in ((0, 1, 2), (3, 4))]
-        cfgs += [(True, um, pi, li, ui, None, mb) for um in (False, True)
-                 for pi in range(len(PERMS)) for li in range(len(LABELS)) for ui in range(5)
-                 for mb in (0, 1, 2)]
+        cfgs += [(True, bool(li % 2), (li + 1) % len(PERMS), li, li % 5, None, mb)
+                 for li in range(len(LABELS)) for mb in (0, 1, 2)]
     return [Cond('workflow_%s_%s_p%d_l%d%s%s' % ('2ch' if two else '1ch',
                                                  'mean' if um else 'median', pi, li,
                                                  '' if ui is None else '_u%d' % ui,
